@@ -231,3 +231,14 @@ s.notes = "one-line wrapper of the assumed filterby('size', 1) model"
 s = view_contract("EdgeView.empty", "view:edges:H", [], "edges")
 s.ens("edges-of-size-zero", PROPS, lambda c, A, R: _content_is(c, R, "empty", lambda e: z3.And(sel(A.S0.ek, e), sel(A.S0.E, e) == c.EMPTY)))
 s.notes = "one-line wrapper of the assumed filterby('size', 0) model"
+
+
+# directed twins of the filterby-based set functions
+s = view_contract("DiNodeView.isolates", "view:nodes:DH", [], "nodes")
+s.ens("nodes-in-no-tail-and-no-head", PROPS, lambda c, A, R: _content_is(c, R, "isolates", lambda n: z3.And(
+    sel(A.S0.nk, n), sel(A.S0.Nin, n) == c.EMPTY, sel(A.S0.Nout, n) == c.EMPTY)))
+s.notes = "one-line wrapper of the assumed filterby('degree', 0) model"
+s = view_contract("DiEdgeView.empty", "view:edges:DH", [], "edges")
+s.ens("edges-with-empty-tail-and-head", PROPS, lambda c, A, R: _content_is(c, R, "empty", lambda e: z3.And(
+    sel(A.S0.ek, e), sel(A.S0.Ein, e) == c.EMPTY, sel(A.S0.Eout, e) == c.EMPTY)))
+s.notes = "one-line wrapper of the assumed filterby('size', 0) model"
